@@ -15,9 +15,9 @@ theorem lookup_some {s : St} {o code : Nat} {r : AssetRec} (h : lookup s o code 
     · cases h
   · cases h
 
-theorem create_ok {s s' : St} {sd hsh cat dc : Nat} {dv rp fz : Bool}
-    (h : create s sd hsh cat dv rp dc fz = .ok s') :
-    s.assets hsh = none ∧ s'.equity = s.equity ∧ s'.idMeta = s.idMeta ∧
+theorem create_ok {s s' : St} {sd hsh cat dc : Nat} {dv rp fz big : Bool}
+    (h : create s sd hsh cat dv rp dc fz big = .ok s') :
+    s'.equity = s.equity ∧ s'.idMeta = s.idMeta ∧
       s'.assets = fun x => if x = hsh then
         some { issuer := sd, category := cat, divisible := dv, replenishable := rp, frozen := fz, supply := 0 }
         else s.assets x := by
@@ -27,12 +27,8 @@ theorem create_ok {s s' : St} {sd hsh cat dc : Nat} {dv rp fz : Bool}
   split at h; · cases h
   split at h; · cases h
   split at h; · cases h
-  rename_i hn
   injection h with h; subst h
-  refine ⟨?_, rfl, rfl, rfl⟩
-  cases hs : s.assets hsh with
-  | none => rfl
-  | some r => simp [hs] at hn
+  exact ⟨rfl, rfl, rfl⟩
 
 theorem issue_ok {stable s s' : St} {sd rc hsh code m : Nat} {amt : Option Int}
     (h : issue stable s sd rc hsh code m amt = .ok s') :
@@ -107,6 +103,7 @@ theorem modify_ok {stable s s' : St} {sd code : Nat} {fz : Fz} (h : LemoModel.As
   · rename_i b _
     injection h with h; subst h
     exact ⟨r, hr, rfl, rfl, Or.inr ⟨b, rfl, rfl⟩⟩
+  · cases h
   · injection h with h; subst h
     exact ⟨r, hr, rfl, rfl, Or.inl rfl⟩
 
